@@ -19,6 +19,16 @@ YFewN == {0, 1, 1234567, 7100000, 7999999, 9499999, 9500000, -1, -8999999}
 YFewS == {10000000, 9999999, 8765433, 2900000, 2000001, 1000000, 999999, 10000001, 19499999}
 Precs == {-1, 0, 1, 5, 6, 11}
 
+\* a synthetic geometry (spherical, 0.9 degree per 100 km, latitude falling 0.05 degree per column) --
+\* only used to exercise Reverse's bookkeeping in the model; real geometry comes with the trace.
+SynTbl == [c \in 1..5 |-> [r \in 1..97 |-> 900000 * (r - 1) - 50000 * (c - 1)]]
+SynBand(y) == LET b == FloorDiv(y * 9, 8 * 1000000) IN IF b < -10 THEN -10 ELSE IF b > 9 THEN 9 ELSE b
+
+\* supplied latitudes for "mfl": 8-degree band edges (offsets -1, 0, +1 micro-degree) and band centres
+XCols == {150000, 250000, 350000, 450000, 550000, 650000, 750000, 850000}
+LatOffs == {<<e, o>> : e \in -1..2, o \in {-1, 0, 1}} \cup {<<e, 4000000>> : e \in -2..2}
+LatAt(b, j) == LET k == 8000000 * (b + j[1]) + j[2] IN IF k > 90000000 THEN 90000000 ELSE IF k < -90000000 THEN -90000000 ELSE k
+
 VecMF(C) ==
   \/ \E x \in InChunk(XU, C), dx \in D3, y \in YFewN, z \in Zones, p \in Precs : v' = <<"mf", z, TRUE, x, dx, y, 0, p>>
   \/ \E x \in InChunk(XU, C), dx \in D3, y \in YFewS, z \in Zones, p \in Precs : v' = <<"mf", z, FALSE, x, dx, y, 0, p>>
@@ -39,6 +49,20 @@ VecMF(C) ==
   \* illegal zone / precision
   \/ C = 0 /\ \E z \in {-4, -1, 61, 100}, p \in {5} : v' = <<"mf", z, TRUE, 500000, 0, 1000000, 0, p>>
   \/ C = 0 /\ \E z \in {0, 31}, p \in {-3, -2, 12, 100} : v' = <<"mf", z, TRUE, 2000000, 0, 2000000, 0, p>>
+  \* NaN coordinates: which = 1 (x), 2 (y), 3 (both); ov = 6 / 7 (overload without / with a latitude)
+  \/ C = 0 /\ \E z \in {0, 31, 32}, n \in B2, w \in 1..3, ov \in {6, 7}, p \in {-1, 0, 5, 11} : v' = <<"mn", z, n, w, ov, p>>
+  \* the overload with a SUPPLIED latitude (micro-degrees): every column, band edges -1/0/+1 micro-degree and
+  \* band centres around the (roughly estimated) band of the point, so that consistent and inconsistent
+  \* latitudes both occur for every row
+  \/ \E t \in InChunk(YNt, C), x \in XCols, j \in LatOffs :
+        v' = <<"mfl", 32, TRUE, x, t * Tile + 43210, LatAt(SynBand(t * Tile), j), 2>>
+  \/ \E t \in InChunk(YSt, C), x \in XCols, j \in LatOffs :
+        v' = <<"mfl", 32, FALSE, x, t * Tile + 43210, LatAt(SynBand((t - 100) * Tile), j), 2>>
+  \/ C = 1 /\ \E la \in {-90000000, -85000000, -80000001, -80000000, -79999999, 0, 1, -1, 79999999, 80000000, 84000000, 84000001, 86000000, 90000000},
+                  y \in {-8950000, -8850000, -50000, 50000, 8050000, 8850000, 9450000}, x \in {150000, 450000}, z \in {1, 31, 60}, p \in {-1, 0, 11} :
+        v' = <<"mfl", z, TRUE, x, y, la, p>>
+  \/ C = 2 /\ \E la \in {-4000000, 4000000, 20000000}, z \in {0, -1, 61}, n \in B2 : v' = <<"mfl", z, n, 2000000, 2000000, la, 5>>
+  \/ C = 2 /\ \E la \in {4000000, 12000000}, x \in {99999, 900000, 900001}, p \in {5, 12} : v' = <<"mfl", 31, TRUE, x, 500000, la, p>>
 
 Letters == <<65, 66, 67, 68, 69, 70, 71, 72, 74, 75, 76, 77, 78, 80, 81, 82, 83, 84, 85, 86, 87, 88, 89, 90>>
 Let26 == 65..90
@@ -81,10 +105,6 @@ Next ==
           [] Part = "mr" -> VecMR(v[2])
 
 (* ------------------------------ model invariants ------------------------- *)
-\* a synthetic geometry (spherical, 0.9 degree per 100 km, latitude falling 0.05 degree per column) --
-\* only used to exercise Reverse's bookkeeping in the model; real geometry comes with the trace.
-SynTbl == [c \in 1..5 |-> [r \in 1..97 |-> 900000 * (r - 1) - 50000 * (c - 1)]]
-SynBand(y) == LET b == FloorDiv(y * 9, 8 * 1000000) IN IF b < -10 THEN -10 ELSE IF b > 9 THEN 9 ELSE b
 
 FwdInv ==
   v[1] = "mf" =>
@@ -109,6 +129,28 @@ RevInv ==
     /\ r[1] \in {"ok", "throw", "nan", "zoneonly"}
     /\ Reverse(SynTbl, LowerS(v[2]), v[3]) = r
     /\ (r[1] = "ok" => Reverse(SynTbl, v[2], ~v[3])[1] = "ok")
+
+\* the syntactic split accepts whatever the conversion accepts, and its parts concatenate to the string
+DecInv ==
+  v[1] = "mr" =>
+    LET r == Reverse(SynTbl, v[2], v[3])  d == DecodeSyn(v[2]) IN
+    /\ (r[1] # "throw" => d[1] = "ok")
+    /\ (d[1] = "ok" /\ r[1] # "nan" => d[2] \o d[3] \o d[4] \o d[5] = v[2] /\ Len(d[4]) = Len(d[5]) /\ Len(d[2]) >= 1 /\ Len(d[3]) \in {0, 2})
+    /\ DecodeSyn(LowerS(v[2]))[1] = d[1]
+
+\* supplied latitude: with the synthetic geometry, the band of the point's own (synthetic) latitude is accepted
+\* at the block centre and a latitude three or more bands away is refused
+MflInv ==
+  v[1] = "mfl" =>
+    LET O == ForwardLat(SynTbl, v[2], v[3], <<v[4], 0>>, <<v[5], 0>>, v[6], v[7]) IN
+    /\ O # {}
+    /\ \A o \in O : o[1] \in {"ok", "throw"}
+    /\ (v[2] \in 1..60 /\ v[7] = 2 /\ Check(TRUE, v[3], <<v[4], 0>>, <<v[5], 0>>) # <<"throw">> =>
+          LET ck == Check(TRUE, v[3], <<v[4], 0>>, <<v[5], 0>>)
+              ys == IF ck[2] THEN ck[4][1] ELSE ck[4][1] - 100 * Tile
+              d == BandOfMicro(v[6]) - SynBand(ys) IN
+          /\ (d >= 3 \/ d <= -3 => O = {<<"throw">>})
+          /\ (v[6] = 8000000 * SynBand(ys) + 4000000 /\ SynBand(ys) \in -9..8 /\ v[4] \in {450000, 550000} => <<"throw">> \notin O))
 
 Emit == v[1] \notin {"root", "chunk"} => PrintT(ToJson(v))
 =============================================================================
